@@ -433,6 +433,24 @@ int sim_asprintf(char **out, const char *fmt, ...)
     va_end(ap);
     return n;
 }
+/* vsnprintf() may fail (ENOMEM inside the formatter, EOVERFLOW, EILSEQ): -1, and what it has written so far stays written.  The
+   executor names the call of the current operation that fails (sim_vsnprintf_fail_at: 1 = first, 2 = second ...; 0 = none). */
+int sim_vsnprintf_fail_at, sim_vsnprintf_calls, sim_vsnprintf_failed;
+int sim_vsnprintf(char *str, size_t n, const char *fmt, va_list ap)
+{
+    if (++sim_vsnprintf_calls == sim_vsnprintf_fail_at) {
+        va_list ap2;
+        va_copy(ap2, ap);
+        if (str && n > 1) vsnprintf(str, n / 2 + 1, fmt, ap2);      /* part of the text is there already */
+        va_end(ap2);
+        sim_vsnprintf_failed++;
+        probe_hit("vsnprintf_failed");
+        tr_printf("vsnprintf call %d -> -1 ENOMEM", sim_vsnprintf_calls);
+        errno = ENOMEM;
+        return -1;
+    }
+    return vsnprintf(str, n, fmt, ap);
+}
 void *sim_reallocarray(void *p, size_t a, size_t b) { if (b && a > (size_t)-1 / b) { errno = ENOMEM; return NULL; } return sim_realloc(p, a * b); }
 
 void sa_check(void)
